@@ -1,9 +1,10 @@
 """C12 - see MANIFEST below."""
 from checks import pfcp_common as pc
+from checks import rmfail_phase
 
 MANIFEST = dict(
     text='Kernel-checked: the reference-count invariant (count = number of PDRs whose URR list names the URR) is preserved by every per-session operation, by emit, by Close and by run_categories for the generated handler orders, for ANY Create PDR ids - fresh, naming PDRs the session holds, repeated in one request - as long as the session has fewer than 65536 PDRs (C12_modification_keeps_refcounts_any_ids, C12_create_pdr); dissociation from the last PDR issues exactly one query and returns its usage marked TERMR, from a shared URR nothing; Remove URR returns the usage marked TERMR, Query URR marked IMMER; the Deletion Response marks every report TERMR and carries at most one per URR. A Create PDR naming a PDR the session still holds REPLACES its associations the way Update PDR does, and the previous bookkeeping is put back when the data plane rejects the duplicate (the former finding create-pdr-existing-id is fixed; its history is a regression case, C12_create_pdr_existing_id_exact). Tie: differential run + state invariant monitor + exact expectation monitor.',
-    note='The world-level statement needs the uint16 counter not to wrap: fewer than 65536 PDRs per session (explicit hypothesis). ',
+    note='The world-level statement needs the uint16 counter not to wrap: fewer than 65536 PDRs per session (explicit hypothesis). A further monitor-only phase (rmfail_phase): a Remove PDR the data plane refuses leaves the PDR referring to its URRs; when the last referrer is finally removed the termination report comes back in that response. ',
     technique="Coq lemmas on the emission / queue / reference-count functions + differential run + trace monitor",
     design='4/C12')
 
@@ -14,4 +15,4 @@ N_QUICK, N_THOROUGH = 110, 3000
 
 def run(ctx, replay=None):
     return pc.run_property(ctx, "C12", pc.mon_c12, GEN, N_QUICK, N_THOROUGH, replay=replay, rule=RULE,
-                           assumptions=[pc.PFCP_NOTE], finding_sig=pc.sig_c12, directed=pc.directed_c12)
+                           assumptions=[pc.PFCP_NOTE], finding_sig=pc.sig_c12, directed=pc.directed_c12, extra_phase=rmfail_phase.phase("C12"))
